@@ -283,6 +283,8 @@ pub fn report() {
     let case = j.get("case").cloned().unwrap_or(serde_json::Value::Null);
     run.violation_n(key, what, json!({"engine":"c02","case":case.clone()}), count);
   }
+  let compositions = check_compositions(&run);
+  run.set("composition_cases", json!(compositions));
   let g = |k: &str| summary.get(k).cloned().unwrap_or(json!(0));
   if summary.is_null() {
     run.machinery_error("oracle wrote no summary");
@@ -305,9 +307,109 @@ pub fn report() {
   run.finish();
 }
 
+/// operands of the compositions: small numbers, ties, and magnitudes whose products and quotients leave the range
+fn composition_operands() -> Vec<&'static str> {
+  vec![
+    "0", "1", "2", "3", "7", "-1", "-3", "0.5", "1.5", "10", "0.3333333333333333333333333333333333", "6E-35", "5E-35", "1E+35", "2E+34", "9999999999999999999999999999999999", "1E-3000", "1E-4000", "1E+3000", "1E+4000", "-1E+3000", "1E+6144",
+    "1E-6176", "9.999999999999999999999999999999999E+6144", "3E-3100",
+  ]
+}
+
+fn binary_text(op: &str) -> &'static str {
+  match op {
+    "+" => "a + b",
+    "-" => "a - b",
+    "*" => "a * b",
+    _ => "a / b",
+  }
+}
+
+/// The result of an expression of two operations is the second operation applied to the (rounded) result of the first: every
+/// combination of two of + - * / in the three ways of writing it, over every operand triple, evaluated as one FEEL text and
+/// compared with the two operations evaluated one after the other (each single operation is judged by the oracle rows).
+fn check_compositions(run: &Run) -> u64 {
+  let ops = ["+", "-", "*", "/"];
+  let operands: Vec<(String, FeelNumber)> = composition_operands().iter().filter_map(|t| t.parse::<FeelNumber>().ok().map(|n| (t.to_string(), n))).collect();
+  let count = std::sync::atomic::AtomicU64::new(0);
+  let pairs: Vec<(usize, usize)> = (0..4).flat_map(|i| (0..4).map(move |j| (i, j))).collect();
+  pairs.par_iter().for_each(|(i, j)| {
+    let (op1, op2) = (ops[*i], ops[*j]);
+    let tight = |o: &str| o == "*" || o == "/";
+    // (text, the first operation is applied to (a, b) and the second to (result, c) - or the inner one to (b, c))
+    let natural_left = !(tight(op2) && !tight(op1));
+    let shapes: Vec<(String, bool)> = vec![(format!("a {} b {} c", op1, op2), natural_left), (format!("(a {} b) {} c", op1, op2), true), (format!("a {} (b {} c)", op1, op2), false)];
+    let names: BTreeSet<String> = ["a", "b", "c"].iter().map(|s| s.to_string()).collect();
+    let ps = crate::rval::parse_scope_of(&names);
+    let e1 = prep(binary_text(op1));
+    let e2 = prep(binary_text(op2));
+    for (text, left) in &shapes {
+      let compound = dmntk_feel_evaluator::prepare(&dmntk_feel_parser::parse_expression(&ps, text, false).unwrap()).unwrap();
+      for (ta, a) in &operands {
+        for (tb, b) in &operands {
+          for (tc, c) in &operands {
+            count.fetch_add(1, std::sync::atomic::Ordering::Relaxed);
+            let mut ctx = FeelContext::default();
+            ctx.set_entry(&Name::from("a"), Value::Number(*a));
+            ctx.set_entry(&Name::from("b"), Value::Number(*b));
+            ctx.set_entry(&Name::from("c"), Value::Number(*c));
+            let observed = val(&compound(&Scope::from(ctx)));
+            let step = |e: &Evaluator, x: &Value, y: &Value| -> Value {
+              match (x, y) {
+                (Value::Number(x), Value::Number(y)) => e(&scope2(x, Some(y))),
+                _ => Value::Null(None),
+              }
+            };
+            let expected = if *left {
+              let first = step(&e1, &Value::Number(*a), &Value::Number(*b));
+              step(&e2, &first, &Value::Number(*c))
+            } else {
+              let inner = step(&e2, &Value::Number(*b), &Value::Number(*c));
+              step(&e1, &Value::Number(*a), &inner)
+            };
+            let expected = val(&expected);
+            if observed != expected {
+              run.violation(
+                &format!("composition:`{}`", text),
+                &format!("`{}` with a = {}, b = {}, c = {} evaluates to {} but the two operations one after the other give {}", text, ta, tb, tc, observed, expected),
+                json!({"engine":"c02","case":{"level":"composition","text":text,"a":ta,"b":tb,"c":tc,"expected":expected,"observed":observed}}),
+              );
+            }
+          }
+        }
+      }
+    }
+  });
+  count.load(std::sync::atomic::Ordering::Relaxed)
+}
+
 /// replay of one recorded row: recomputes the observed value and compares it with the recorded expectation
 pub fn replay_case(case: &serde_json::Value) -> String {
   let c = case.get("case").unwrap_or(case);
+  if c.get("level").and_then(|x| x.as_str()) == Some("composition") {
+    let g = |k: &str| c.get(k).and_then(|x| x.as_str()).unwrap_or("").to_string();
+    let names: BTreeSet<String> = ["a", "b", "c"].iter().map(|s| s.to_string()).collect();
+    let ps = crate::rval::parse_scope_of(&names);
+    let node = match dmntk_feel_parser::parse_expression(&ps, &g("text"), false) {
+      Ok(n) => n,
+      Err(e) => return format!("MACHINERY the recorded text does not parse: {}", e),
+    };
+    let mut ctx = FeelContext::default();
+    for k in ["a", "b", "c"] {
+      match g(k).parse::<FeelNumber>() {
+        Ok(n) => ctx.set_entry(&Name::from(k), Value::Number(n)),
+        Err(_) => return format!("MACHINERY operand {} does not read", g(k)),
+      }
+    }
+    let observed = match dmntk_feel_evaluator::evaluate(&Scope::from(ctx), &node) {
+      Ok(v) => val(&v),
+      Err(e) => format!("error {}", e),
+    };
+    return if observed == g("expected") {
+      format!("PASS `{}` of {}, {}, {} gives {}", g("text"), g("a"), g("b"), g("c"), observed)
+    } else {
+      format!("FAIL `{}` of {}, {}, {} gives {} but the two operations one after the other give {}", g("text"), g("a"), g("b"), g("c"), observed, g("expected"))
+    };
+  }
   let g = |k: &str| c.get(k).and_then(|x| x.as_str()).unwrap_or("").to_string();
   let (level, op, ta, tb, expected) = (g("level"), g("op"), g("a"), g("b"), g("expected"));
   let a = match ta.parse::<FeelNumber>() {
